@@ -99,8 +99,13 @@ VALID = {
                # a backslash is an ordinary character, also at the end
                ("C:\\data\\", "C:\\data\\"),
                # text is kept as written: no Unicode (de)composition
-               ("re\u0301sume\u0301 \u212b", "re\u0301sume\u0301 \u212b")],
-    "null": [("v", "v"), ("", ""), ("x y", "x y")],
+               ("re\u0301sume\u0301 \u212b", "re\u0301sume\u0301 \u212b"),
+               # quotes, assignment signs and comment characters inside a
+               # value are ordinary characters
+               ('"quoted text"', '"quoted text"'), ("'q'", "'q'"),
+               ('"a","b"', '"a","b"'), ("= v", "= v"), ("# x", "# x"),
+               ("x # y", "x # y"), ("; z =", "; z =")],
+    "null": [("v", "v"), ("", ""), ("x y", "x y"), ('"n"', '"n"')],
     "integer": [("0", 0), ("42", 42), ("-7", -7), ("007", 7)],
     "boolean": [("yes", True), ("TRUE", True), ("On", True), ("no", False),
                 ("False", False), ("OFF", False)],
